@@ -239,6 +239,34 @@ def wl_before_closed(x):
     x.req("after-close", lambda: c.root.echo(2), "never")
 
 
+def wl_close_under_waiter(x):
+    """one client thread waits (no time-out) for a reply the peer will take long to produce; another thread of the same side
+    closes the connection: the waiter fails with EOFError at once, it does not sit out the peer's handler"""
+    c = x.cconn
+    x.req("root", lambda: c.root.echo(0), ("echo", 0))
+    try:
+        root = c.root
+    except EOFError:
+        return
+    times = {}
+
+    def other():
+        x.req("t2", lambda: root.slow(20.0, "late"), "never")
+        times["t2_end"] = S.sim_time.time()
+    t = S.SimThread(target=other, name="client2")
+    x.concurrent = True
+    t.start()
+    S.sim_time.sleep(0.5)
+    times["close"] = S.sim_time.time()
+    x.req("close", lambda: c.close(), None)
+    t.join(100)
+    x.concurrent = False
+    if "t2_end" in times and times["t2_end"] - times["close"] > 2.0:
+        x.out.append(("t2", "exc:blocked-%.0fs-after-local-close" % (times["t2_end"] - times["close"]), False, "waiter returned %.1f s after close()" % (
+            times["t2_end"] - times["close"])))
+    x.observe("after-join")
+
+
 def wl_before_closed_raises(x):
     """close() whose goodbye step fails with something other than EOFError (the before_closed hook calls a peer method that
     raises): with close_catchall off the error reaches the caller - and the connection is closed and clean all the same"""
@@ -261,7 +289,8 @@ def wl_before_closed_raises(x):
     x.req("after-close", lambda: c.root.echo(2), "never")
 
 
-WORKLOADS = {"before-closed-hook": (wl_before_closed, 30), "before-closed-hook-raises": (wl_before_closed_raises, 30), "sync": (wl_sync, 30), "async": (wl_async, 30), "nested": (wl_nested, 30), "refs": (wl_refs, 30),
+WORKLOADS = {"before-closed-hook": (wl_before_closed, 30), "before-closed-hook-raises": (wl_before_closed_raises, 30),
+             "close-under-waiter": (wl_close_under_waiter, None), "sync": (wl_sync, 30), "async": (wl_async, 30), "nested": (wl_nested, 30), "refs": (wl_refs, 30),
              "client-close": (wl_client_close, 30), "server-close": (wl_server_close, 30),
              "two-threads-no-timeout": (wl_two_threads_no_timeout, None), "bg-thread": (wl_bg, 30)}
 
